@@ -144,6 +144,16 @@ CLAIMED["C16"] = dict(
     note=FS_NOTE,
 )
 
+CLAIMED["C04"] = dict(
+    engine="symx",
+    technique="symbolic execution of RunT/setup/run/Defer/removeAll from go/ssa over a file-system and environment model; exit kind, host environment and retention flags decided by z3",
+    text=("Claimed in part (sequential clauses only): after setup the work directory holds exactly the archive's files, the script environment contains only the documented variables, Setup's additions and the "
+          "GOCOVERDIR/GORACE pass-through (no other host variable or value), deferred functions run in reverse order on pass, fail, skip and stop, and the work directory and - after the last script - the temp root are removed "
+          "unless TestWork/WorkdirRoot ask to keep them (read-only directories included). Interference between parallel scripts and process liveness are outside this technique's reach and are not claimed."),
+    design_ref="DESIGN.md §4 C04",
+    note=FS_NOTE,
+)
+
 NOT_APPLICABLE = {
     "C20": "goproxytest's behaviour lives in net/http, archive/zip+flate, encoding/json (reflection) and directory walks; none is encodable by the SSA symbolic executor, and with them stubbed nothing solver-relevant remains (its once-per-key ingredient is par.Cache = C10)",
 }
